@@ -2264,6 +2264,28 @@ impl ProvenanceService {
     }
 }
 
+/// Verification-only seam (feature `echo_verif`, hook `fingerprint` for C09): canonical text of
+/// every worldline history (entry count, each entry's commit hash, checkpoint count, full
+/// `Debug`) and of the retained shell key sets.
+#[cfg(feature = "echo_verif")]
+impl ProvenanceService {
+    pub(crate) fn echo_verif_history_debug(&self) -> (Vec<(WorldlineId, String)>, String) {
+        let mut worldlines = Vec::new();
+        for (worldline_id, history) in &self.store.worldlines {
+            let mut s = format!("n={}", history.entries.len());
+            for entry in &history.entries {
+                s.push_str(&format!("|{:?}", entry.expected.commit_hash));
+            }
+            s.push_str(&format!("|cp={}|{history:?}", history.checkpoints.len()));
+            worldlines.push((*worldline_id, s));
+        }
+        (
+            worldlines,
+            format!("{:?}|{:?}", self.braid_shells, self.plural_shell_index),
+        )
+    }
+}
+
 impl ProvenanceStore for ProvenanceService {
     fn u0(&self, w: WorldlineId) -> Result<WarpId, HistoryError> {
         self.store.u0(w)
